@@ -1031,6 +1031,56 @@ def rule_layers(model):
     return r
 
 
+def rule_instance_attributes(model):
+    r = RuleResult('C02.R10', 'the wrapper that exposes a client object, a '
+                   'with-object or a loop element to the namespace resolves '
+                   'names from ATTRIBUTES of the object only (items are '
+                   'exposed by pushing the mapping itself, with the '
+                   '`mapping` option): it never subscripts the object with '
+                   'the name (a defaultdict / Counter element would define '
+                   'every name and shadow all outer sources)')
+    ci = model.modules['_DocumentTemplate'].classes.get('InstanceDict')
+    gi = ci.methods.get('__getitem__') if ci else None
+    if gi is None:
+        raise AnalysisError('C02.R10: InstanceDict.__getitem__ not found')
+    n = 0
+    for fi in [f for f in model.closure(gi) if f.cls is ci]:
+        inst = {'self.inst'}
+        for x in own_nodes(fi.node):
+            if isinstance(x, ast.Assign) and norm(x.value) == 'self.inst' \
+                    and isinstance(x.targets[0], ast.Name):
+                inst.add(x.targets[0].id)
+        for x in own_nodes(fi.node):
+            if isinstance(x, ast.Call) and x.args and \
+                    norm(x.args[0]) in inst:
+                n += 1
+                nm = norm(x.func)
+                defs = model.local_defs(fi, nm) if isinstance(
+                    x.func, ast.Name) else []
+                item = 'getitem' in nm or any(
+                    isinstance(d, ast.AST) and 'getitem' in norm(d)
+                    for d in defs)
+                r.instance(fi.where, x, 'ITEM READ' if item
+                           else 'attribute read')
+                if item:
+                    r.finding(fi.where, x, 'the wrapped object is read by '
+                              'item access with the looked-up name',
+                              node=x, ctx=fi)
+            if isinstance(x, ast.Subscript) and isinstance(
+                    x.ctx, ast.Load) and norm(x.value) in inst:
+                n += 1
+                r.instance(fi.where, x, 'ITEM READ')
+                r.finding(fi.where, x, 'the wrapped object is subscripted '
+                          'with the looked-up name: a mapping-like element '
+                          '(defaultdict, Counter, record with __missing__) '
+                          'then answers names it does not have as '
+                          'attributes and shadows the outer sources',
+                          node=x, ctx=fi)
+    if n < 1:
+        raise AnalysisError('C02.R10: no read of the wrapped object found')
+    return r
+
+
 def rule_block_namespace(model):
     r = RuleResult('C02.R8', 'the mapping dtml-in lays over the namespace '
                    'answers only its own names (keys with a dash, or keys '
@@ -1043,7 +1093,7 @@ def rule_block_namespace(model):
 INLINED_VIEW = True
 RULES_PLAIN = [rule_push_order, rule_ctor, rule_call_flag, rule_direction,
                rule_scoping, rule_instance_state, rule_keyword_namespace,
-               rule_block_namespace, rule_layers]
+               rule_block_namespace, rule_layers, rule_instance_attributes]
 RULES = [_inl(r_) for r_ in RULES_PLAIN] if INLINED_VIEW else RULES_PLAIN
 EXPLANATION = (
     'Forward dataflow of the precedence class of every namespace push along '
